@@ -273,6 +273,9 @@ def run(ctx):
     c15.rule_axis_conditions(ctx, 'R02.10', files=('tree.c', 'gravity.c'), floor=1)
     c15.rule_cell_moments(ctx, 'R02.11')       # every cell the walk may accept as a monopole carries the mass and centre of mass of its contents   # a particle that left its cell in any direction is re-inserted: the multipole of a cell describes its contents
     rule_pair_domains(ctx)
+    from . import jerkdomain
+    jerkdomain.rule_jerk_domain(ctx, 'R02.14')              # the jerk corrects the kick: same pair set, never two test particles
+    jerkdomain.rule_jacobi_direct_domain(ctx, 'R02.15')     # Jacobi-split routine: the guard of the direct term admits the specified pairs only
     from . import indexspace
     indexspace.rule_index_spaces(ctx, 'R02.9')
     rule_dispatch(ctx)
